@@ -34,7 +34,8 @@ META = dict(
                "reported as VIOLATION until the diff is applied: nothing is written at engine start; a long-running "
                "method command keeps writing its value every tick while paused; an error pause leaves the outputs as "
                "they are. Not covered: the one tick between the two halves of Restart (no run active, last written "
-               "values stay - not among the situations C08 lists); injected errors while no run is active; UOD commands other than 'write v to r for n iterations' (overlap lists, "
+               "values stay - not among the situations C08 lists; in the theorem: history flag restartGap = the run "
+               "was ended by the first half of a Restart and no run has started since); injected errors while no run is active; UOD commands other than 'write v to r for n iterations' (overlap lists, "
                "init/finalize effects, failing exec functions are model M2); a user UOD command requested while no "
                "run is active that is still executing after the next Start (tracking raises; flagged `bad-op scope`, "
                "not generated). The exemption 'unless the user explicitly commands that output during the pause' is proved in "
@@ -43,6 +44,8 @@ META = dict(
                "before the Pause keeps running and holds its output at an unsafe value throughout the pause "
                "(C08_counterexample; recorded finding unsafe-output-while-paused:user-command-from-before-the-pause, "
                "reproduced on the real engine every run; the oracle uses the strict reading). "
+               "The model follows /repo 90a68ba6 (Stop/Restart cancel all commands once more in their second "
+               "phase, switch cancel2, probed). "
                "Recorded finding outside the model (findings.d/C08.json, reproduced on the real engine "
                "every run, not repaired): an output tag under 'Simulate' keeps its simulated value on the hardware "
                "while paused. Trusted: Lean kernel, harness, model (see C06).",
